@@ -13,6 +13,9 @@ const (
 	// Frost KeyGen with Threshold.
 	protocolID        = "frost/keygen-threshold"
 	protocolIDTaproot = "frost/keygen-threshold-taproot"
+	// Refreshing existing shares is a protocol of its own: its sessions must not share a tag with key generation.
+	protocolIDRefresh        = "frost/refresh-threshold"
+	protocolIDRefreshTaproot = "frost/refresh-threshold-taproot"
 	// This protocol has 3 concrete rounds.
 	protocolRounds round.Number = 3
 )
@@ -33,9 +36,15 @@ func StartKeygenCommon(taproot bool, group curve.Curve, participants []party.ID,
 			Threshold:        threshold,
 			Group:            group,
 		}
-		if taproot {
+		isRefresh := privateShare != nil && publicKey != nil
+		switch {
+		case isRefresh && taproot:
+			info.ProtocolID = protocolIDRefreshTaproot
+		case isRefresh:
+			info.ProtocolID = protocolIDRefresh
+		case taproot:
 			info.ProtocolID = protocolIDTaproot
-		} else {
+		default:
 			info.ProtocolID = protocolID
 		}
 
